@@ -111,8 +111,8 @@ ADDED = {
  "C01": "Also: a fresh manager is published only after ruling out an existing one for the key; a pooled manager's key is zeroed; GetOrNewDB is check-then-act under one mutex. A key's fast slot is cleared only after its manager was tombstoned or put into the slow map.",
  "C02": "Also: RemoveLock keeps the LockId index in step; cancelWaitLock selects only not-yet-answered queue entries. The holder lookup by LockId returns only live matching entries and reports a miss only after examining the inline slice and the overflow index.",
  "C04": "Also: the FIFO-to-priority-ring switch condition and the arrival-order migration; the priority bypass is decided on path facts whether or not a helper holds it.",
- "C05": "Also: sweepers re-arm an entry only after testing its tombstone clear.",
- "C06": "Also: the long-table entry is removed under the deadline read before the update; re-arm only after the tombstone test; recycled long-wait buckets are re-initialised. The millisecond sweep must consult a field an update rewrites before ending a hold (known finding: it does not).",
+ "C05": "Also: sweepers re-arm an entry only after testing its tombstone clear. A millisecond period handed to the second wheels is rounded up, not truncated (defect repaired: a 3999 ms wait was answered after 3.2 s).",
+ "C06": "Also: the long-table entry is removed under the deadline read before the update; re-arm only after the tombstone test; recycled long-wait buckets are re-initialised. The millisecond sweep must consult a field an update rewrites before ending a hold (known finding: it does not). A millisecond period handed to the second wheels is rounded up, not truncated (defect repaired).",
  "C07": "Also: log-file lists are snapshot-first; UnLock clears the persisted mark only with removal. A pooled Lock object enters or leaves the pool with its persisted mark cleared. A hold's persistence mode is never copied from another hold (known finding: later holders of a shared key inherit the first holder's mode). The expiry written to and read from the log is reduced by the age of the hold for every granularity (millisecond holds: defect repaired).",
  "C08": "Also: values buffered only with records; readers never return io.ReadFull's error unmapped; oversized values written directly only with the record buffer empty. Readers return a constructed error only about a completely read item; the newest append file is cut back to whole records before appending (three reproduced crash-recovery defects were repaired). Something must truncate the value file after a torn value (known finding: nothing does).",
  "C09": "Also: receive ring >= queue capacity + 2; live append file touched only under the append mutex (a reproduced race was repaired); the ring examines all 16 id bytes.",
